@@ -43,9 +43,10 @@ PLAIN = "C19-unmapped-array-output-not-storable"
 
 # ------------------------------------------------------------------ Coq literal
 def emit_case(c) -> str:
-    return "{| c_funcs := %s; c_inputs := %s; c_internal := %s; c_li := %s; c_kind := %s |}" % (
+    return "{| c_funcs := %s; c_inputs := %s; c_internal := %s; c_li := %s; c_kind := %s; c_order := %s |}" % (
         clist([mapgen.func_lit(f) for f in c["funcs"]]), mapgen._env(c["inputs"]),
-        mapgen.shapes_lit(c.get("internal")), cbool(bool(c["li"])), cnat(int(c["kind"])))
+        mapgen.shapes_lit(c.get("internal")), cbool(bool(c["li"])), cnat(int(c["kind"])),
+        clist([cnat(i) for i in (c.get("order") or [])]))
 
 
 # ------------------------------------------------------------------ observation of a real xarray.Dataset
@@ -96,7 +97,7 @@ def _run_request(c):
     from pipefunc.map import load_xarray_dataset
     from pipefunc.map.xarray import xarray_dataset_from_results
 
-    key = json.dumps({k: c[k] for k in ("funcs", "inputs", "internal", "storage", "li")}, sort_keys=True)
+    key = json.dumps({k: c.get(k) for k in ("funcs", "inputs", "internal", "storage", "li", "order")}, sort_keys=True)
     if key in _cache:
         return _cache[key]
     _cache.clear()
@@ -105,7 +106,10 @@ def _run_request(c):
     sink = io.StringIO()
     with contextlib.redirect_stdout(sink):
         try:
-            p = mapsym.build_pipeline(c, log)
+            if c.get("order"):   # user-level list: Pipeline([...]) in this order generates the missing MapSpecs
+                p = mapsym.build_pipeline(dict(c, funcs=[c["funcs"][i] for i in c["order"]]), log)
+            else:
+                p = mapsym.build_pipeline(c, log)
             with mapsym.TempRun() as d:
                 inputs = mapsym.map_inputs(c)
                 r = p.map(inputs, run_folder=d, internal_shapes=mapsym.internal_arg(c),
@@ -363,11 +367,20 @@ def generate(rng, tier, mult):
         if u < 0.10:
             c = _two_pipelines(rng, storages)
         else:
-            c = mapgen.gen_request(rng, max_rank=rng.choice([2, 3, 3]), storages=storages)
+            c = mapgen.gen_request(rng, max_rank=rng.choice([2, 3, 3]), storages=storages,
+                                   allow_zero_ext=rng.random() < 0.5)
             if not _in_scope(c):
                 continue
             if u < 0.25:
                 c = _plain_arrays(c, rng)
+            elif u < 0.60:
+                # user-level list: the '... -> v[...]' MapSpec of a consumed generator is left to pipefunc
+                a = mapgen.to_user_level(c, rng)
+                if a is not None:
+                    a.pop("kind", None)
+                    if a["order"] == sorted(a["order"]) and rng.random() < 0.5:
+                        rng.shuffle(a["order"])
+                    c = a
         out += _cases_of(c, rng.random() < 0.5)
         k += 1
     return out
@@ -382,7 +395,7 @@ def nontrivial_key(c):
     if not _has_coord(c):
         return None
     return ([mapsym.spec_str(f.get("spec")) for f in c["funcs"]],
-            [v["sh"] if isinstance(v, dict) else 0 for _, v in c["inputs"]], c["li"], c["kind"])
+            [v["sh"] if isinstance(v, dict) else 0 for _, v in c["inputs"]], c["li"], c["kind"], c.get("order") or [])
 
 
 def distribution(c):
@@ -393,6 +406,9 @@ def distribution(c):
             "storage": c.get("storage"), "input_ranks": "".join(map(str, ranks)), "may_zip": _may_zip(c),
             "colon": any(a is None for f in c["funcs"] if f.get("spec") for _, ax in f["spec"]["i"] for a in ax),
             "axis_conflict": _axis_conflict(c), "plain_rank": _plain_rank(c),
+            "autogen": bool(c.get("order")),
+            "zero_mapped_axes": any(f.get("spec") and f["spec"]["i"]
+                                    and not any(a for _, ax in f["spec"]["i"] for a in ax) for f in c["funcs"]),
             "internal_before_mapped": any(
                 f.get("ret") and f.get("spec") and f["spec"]["i"]
                 and f["spec"]["o"][0][1][0] not in {a for _, ax in f["spec"]["i"] for a in ax}
